@@ -662,8 +662,10 @@ func acceptLoopRules(p *Prog, r *Report, R string) {
 
 // recvLength: the canonical description of the announced frame length in a stream Recv,
 // for either complete-read idiom:
-//   binary.Read(c, binary.BigEndian, &sz)           (sz a 64-bit integer)   -> "$sz"
-//   io.ReadFull(c, buf[:]) ; int64(BigEndian.Uint64(buf[:]))  (buf [8]byte) -> that value
+//
+//	binary.Read(c, binary.BigEndian, &sz)           (sz a 64-bit integer)   -> "$sz"
+//	io.ReadFull(c, buf[:]) ; int64(BigEndian.Uint64(buf[:]))  (buf [8]byte) -> that value
+//
 // Returns "" when neither is found; the second result is the read event.
 func recvLength(p *Prog, f *F) (string, Sel, string) {
 	rd := f.Ev("call", "binary.Read")
